@@ -69,19 +69,22 @@ func typeCtor(t string) string {
 	return "TOther"
 }
 
-func mtimeTerm(has bool, ns int64) string {
+func mtimeTerm(has bool, ns string) string {
 	if !has {
 		return "None"
 	}
-	return "(Some " + z(ns) + ")"
+	if strings.HasPrefix(ns, "-") {
+		return "(Some (" + ns + "))"
+	}
+	return "(Some " + ns + ")"
 }
 
 func coqEntry(in *interners, e *estargz.TOCEntry) string {
 	t, err := time.Parse(time.RFC3339, e.ModTime3339)
 	has := err == nil && !t.IsZero()
-	var ns int64
+	ns := "0"
 	if has {
-		ns = t.UnixNano()
+		ns = timeKey(t)
 	}
 	perm := int64(uint32((&estargz.TOCEntry{Mode: e.Mode, Type: "reg"}).Stat().Mode()))
 	var xs []string
